@@ -1,6 +1,6 @@
 SPECIFICATION SpecLegal
 CONSTANT Cfg <- MCCfg22
-CONSTANT Rots = {0}
+CONSTANT Rots = {0, 1}
 CONSTANT Shuffle = FALSE
 CONSTANT Family = "toy"
 CONSTANT Extra = 0
@@ -23,5 +23,4 @@ PROPERTY InvalidIgnored
 PROPERTY ReturnAtEnd
 PROPERTY ProblemDataConstant
 PROPERTY PlacedOnlyGrows
-CONSTRAINT Bounded
 CHECK_DEADLOCK FALSE
